@@ -105,6 +105,10 @@ def gen_interleaved(r):
                 init.append(f'a{t}{a}={r.choice([0, 1]) if t in "cd" else r.randrange(65536)}')
     r.shuffle(init)
     groups = (['H:null'] if null else []) + ['I:' + ';'.join(init)] if init else (['H:null'] if null else [])
+    if init and r.random() < 0.2:
+        # the same unit id registered a second time, with another initial database: refused, no effect
+        dup = [f'a{t}{a}={r.choice([0, 1]) if t in "cd" else r.randrange(65536)}' for a in r.sample(range(0, 12), 3) for t in r.sample('cdhi', 2)]
+        groups.append('J:' + ';'.join(dup))
     touched = []
 
     def reads(addrs, p=0.8):
@@ -186,6 +190,9 @@ CORPUS = [
     'I:ah0=1 W:uh0=5|0600000009 X:S:0300000001',
     'I:ah0=1;ah1=1 W:uh1=5;ai7=3|0601710009 X:S:0301710001 X:S:0300010001 X:S:0400070001 X:S:0201710001',
     'I:ac2=0 W:ad9=1|050002FF00 X:S:0100020001 X:S:0400020001 X:S:0200090001',
+    # the unit id registered twice: the second call is refused and changes nothing
+    'I:ah0=5;ac1=1 J:ah0=9;ai3=4 X:S:0300000001 X:S:0400030001 T:gh0;gi3 X:S:0100010001 X:S:0600000007 X:S:0300000001',
+    'I:ah0=5 J:ah1=1 J:ah0=6 X:S:0300000001 X:S:0300010001',
     # unset callbacks: exception 01, nothing changes, transactions stay
     'H:null I:ah0=1 T:ah5=9;ad5=1 X:S:0600000002 X:S:0300000001 X:S:0300050001 X:S:0200050001 X:S:0500050000 X:S:0F0005000101FF X:S:10000000010200FF',
     'I:ah0=5;ah1=6;ac0=1 X:S:0300000002 X:S:0300000003 X:S:06000000FF X:S:0300000001 X:S:0600650001 X:S:0600960001 X:S:060170000A X:S:0301700001 '
@@ -217,6 +224,9 @@ def to_coq(case):
             o, hx = g[2:].split('|')
             items.append('IOps [' + '; '.join(op_to_coq(x) for x in o.split(';') if x) + ']')
             items.append(f'IFrame 1 {vlib.coq_N_list(bytes.fromhex(hx))}')
+            continue
+        if g[0] == 'J':
+            items.append('IDup [' + '; '.join(op_to_coq(o) for o in g[2:].split(';') if o) + ']')
             continue
         if g[0] in 'IT':
             items.append('IOps [' + '; '.join(op_to_coq(o) for o in g[2:].split(';') if o) + ']')
@@ -300,6 +310,10 @@ def check_system(ctx, flavour, n, tag):
         classes['write-sent-inside-transaction'] += sum(1 for g in c.split() if g[0] == 'W')
         for g in expand(c):
             if g[0] == 'H':
+                continue
+            if g[0] == 'J':
+                pos += 1
+                classes['duplicate-registration'] = classes.get('duplicate-registration', 0) + 1
                 continue
             if g[0] in 'IT':
                 pos += len([o for o in g[2:].split(';') if o])
